@@ -78,7 +78,9 @@ fn run_view(c: &Compiled, p: &Prog, owners: &[IOStatus], xs: &[u8], tape: u64, o
     }
     let _ = p;
     let oid = c.g.get_output_node().unwrap().get_id() as usize;
-    let outv = r.vals[observer][oid].extract().and_then(|v| v.to_u8(BIT).ok());
+    // a shared output is a tuple of shares (no party receives an output value then)
+    let out_scalar = c.g.get_output_node().unwrap().get_type().map(|t| t.is_scalar()).unwrap_or(false);
+    let outv = if out_scalar { r.vals[observer][oid].extract().and_then(|v| v.to_u8(BIT).ok()) } else { None };
     (view, outv)
 }
 
